@@ -522,6 +522,9 @@ fn expr(cx: &Ctx, e: &Expr) -> R<String> {
                 BinOp::Eq(_) if grp => format!("(Sm9.G.eq {} {})", paren(&l), paren(&r)),
                 BinOp::Ne(_) if grp => format!("(!Sm9.G.eq {} {})", paren(&l), paren(&r)),
                 BinOp::BitAnd(_) => format!("({} &&& {})", l, r),    // integers only (u128 loop constants)
+                // bitwise or / xor of unsigned integers (bytes, loop constants): total, no overflow; Lean rejects any other operand type
+                BinOp::BitOr(_) => format!("({} ||| {})", l, r),
+                BinOp::BitXor(_) => format!("({} ^^^ {})", l, r),
                 BinOp::Shl(_) => format!("({} <<< {})", l, r),
                 BinOp::Gt(_) => format!("(decide ({} > {}))", l, r),      // integers only (loop counters)
                 BinOp::Lt(_) => format!("(decide ({} < {}))", l, r),
